@@ -37,6 +37,7 @@ pub fn def() -> CheckDef {
         exec,
         components: "real code: all nine crates and cipher's front ends; stub: block cipher in most runs, real ciphers in the rest; every run under catch_unwind (a panic raised by the code under test is a violation, one raised by the harness a harness error)",
         assumptions: &["unchanged buffers are demanded for the rejected-call kinds the property lists, not after a malformed-padding error", "negative i32 seek positions and positions beyond the keystream are outside the stated domain", "sampling of sizes and positions; fault kinds x types enumerated"],
+        nondet_is_violation: false,
     }
 }
 
@@ -198,7 +199,7 @@ fn exec(scn: &Scn, ctx: &mut Ctx) -> Verdict {
     // nothing else: same fixed backend width for every instance of a run
     let mut s2 = scn.clone();
     let w = scn.pol[0].max_width();
-    s2.pol = vec![crate::simcipher::Policy::Fixed(w); 4];
+    s2.pol = vec![crate::simcipher::Policy::Fixed(w); 8];
     env_setup(&s2, false);
     sig_base(ctx, &s2);
     let fault = scn.num("fault");
